@@ -6,8 +6,8 @@ ALL = ["C%02d" % i for i in range(1, 21)]
 CHECKS = {
  "C10": dict(
    technique="Lean 4 theorems (order-independence by sorted-permutation uniqueness + fold invariant) over a hand-written model; regenerated go/ast facts; all-permutation differential against the real didstore",
-   text="Proof: for every finite event set, every two arrival sequences (any permutation, duplicates, independent stores, any Go map iteration order) yield the identical event list, metadata chain, documents and conflicted flag per DID, hence identical Resolve answers (resolve_order_independent, store_is_fold, merge_deterministic, deactivated_monotone, conflict_resolved_by_covering_update). The model is tied to the source by regenerated facts (which merged fields are sorted, no map range in the writer, conflicted flag read unconditionally) that are Lean proof obligations, and by a line-by-line differential of the compiled model against the real store on all permutations of generated event sets.",
-   note="Trusted: Lean kernel; extractor; harness/canonicaliser; go-did JSON, SHA-256, bbolt atomicity are modelled contracts. Global counters (ConflictedCount/DocumentCount) are covered by correspondence + the all-orders-agree oracle, their order-independence theorem is not yet proved.",
+   text="Proof: for every finite event set, every two arrival sequences (any permutation, duplicates, independent stores, any Go map iteration order) yield the identical event list, metadata chain, documents and conflicted flag per DID, hence identical Resolve answers and identical DocumentCount/ConflictedCount (resolve_order_independent, stats_order_independent, store_is_fold, merge_deterministic, deactivated_monotone, conflict_resolved_by_covering_update). The model is tied to the source by regenerated facts (which merged fields are sorted, no map range in the writer, conflicted flag read unconditionally) that are Lean proof obligations, and by a line-by-line differential of the compiled model against the real store on all permutations of generated event sets.",
+   note="Trusted: Lean kernel; extractor; harness/canonicaliser; go-did JSON, SHA-256, bbolt atomicity are modelled contracts.",
    ref="5 C10"),
 }
 def main():
